@@ -322,9 +322,21 @@ def programs(draw):
         body.append(['assign', v, e])
         names = names + [v]
   ret = draw(exprs(3, names, nh, control_flow, True, tuple(pvars)).filter(_has_call))
+  nested_ret = draw(st.sampled_from(range(8))) == 0
+  if nested_ret:
+    # round 8: the returned structure nests several dicts, the earlier ones hold plain values
+    # only and the configurable calls sit in the last one (as_buildable must still find them)
+    plain = [['dict', [["'k'", ['lit', draw(st.sampled_from(_LITS))]]]]
+             for _ in range(draw(st.integers(1, 2)))]
+    last = ['dict', [["'j'", ret]]]
+    outer = draw(st.sampled_from(['dict', 'list', 'tuple']))
+    if outer == 'dict':
+      ret = ['dict', [[f"'d{i}'", e] for i, e in enumerate(plain + [last])]]
+    else:
+      ret = [outer, plain + [last]]
   body.append(['return', ret])
   return {
-      'helpers': helpers, 'control_flow': control_flow, 'form': form, 'body': body,
+      'helpers': helpers, 'control_flow': control_flow, 'form': form, 'body': body, 'nested_ret': nested_ret,
       'b_default': draw(st.sampled_from(_LITS)), 'cv': draw(st.sampled_from(_LITS)),
       'cv2': draw(st.sampled_from([None] + _LITS)) if form == 'closure' else None,
       'args': [draw(st.sampled_from(_LITS))] + ([draw(st.sampled_from(_LITS))] if draw(st.booleans()) else []),
